@@ -4,6 +4,30 @@ import json, subprocess, os
 ROOT = os.path.dirname(os.path.dirname(os.path.abspath(__file__)))
 ALL = ["C%02d" % i for i in range(1, 21)]
 CHECKS = {
+ "C03": dict(engine="SEQ", technique="exhaustive product enumeration of RowSets x limits x table contents on the real service, membership-predicate oracle + chunk state machine",
+   text="Every RowSet of <=1 range + <=1 key and every pair of ranges (+ optional key) with each bound unset/open/closed over the 7 adversarial keys, x rows_limit x table contents (every subset of the key universe for single ranges), executed as ReadRows on the real service per engine and compared with a predicate-on-keys oracle (no range merging) and an independent chunk-stream decoder; multi-message result sets, limits combined with row-emptying filters, and SampleRowKeys under every answer sequence of the random seam. The enumerated space is finite and is covered completely (evidence: exhaustive=true).",
+   note="Trusted: membership predicate in bt/model.go, chunk decoder in bt/driver.go. Empty byte strings as bounds/keys are not exercised. Quick tier: leveldb engines use the 4-key sub-universe for range pairs; thorough: full universe on all three engines.",
+   ref="§4 C03"),
+ "C05": dict(engine="SEQ", technique="exhaustive enumeration of filter trees (leaf boundary catalogue, all depth-2 compositions of a 21-leaf basis, depth-3 of an 8-leaf basis) on the real service, independent evaluator oracle",
+   text="Every leaf filter over its boundary arguments, every chain/interleave pair and every condition(p,t,f) over the basis, depth-3 compositions, and the row-sample filter under every coin sequence, each executed as a whole-table ReadRows on several tables and engines and compared cell-for-cell with an independent evaluator over the flat cell list (own regex matcher).",
+   note="Trusted: evaluator + regex matcher in bt/. Cases whose answer depends on an order the documented semantics leave open are detected and skipped (counted). Invalid arguments must be rejected when lazy evaluation reaches them.",
+   ref="§4 C05"),
+ "C12": dict(engine="SEQ", technique="explicit-state BFS over row histories x predicate catalogue x mutation-list pairs on the real service, reference-model oracle",
+   text="From every row state reached by a BFS over mutation histories, every predicate of a catalogue (none, leaves, compositions that strip/limit to zero cells, erroring ones) x every ordered pair of mutation lists is executed as one CheckAndMutateRow on a fresh instance; predicate_matched, the applied branch and the complete table state are compared with the reference model.",
+   note="Trusted: reference model. Failure = any non-OK status. Lazily unreachable invalid predicate nodes are skipped as ambiguous.",
+   ref="§4 C12"),
+ "C13": dict(engine="SEQ", technique="exhaustive enumeration of rule lists x prior row states x injected clocks on the real service, reference-model oracle",
+   text="Every rule list up to the length bound over extreme increments/appends on repeated and unknown columns x prior row states (absent, 8/7/9-byte, empty, multi-version, newest cell after/at/before the clock) x clock values, each executed as one ReadModifyWriteRow; response row and complete table state compared with the model (wrap-around arithmetic, timestamp = max(clock ms, newest), older versions kept, failure atomicity).",
+   note="Trusted: reference model. Empty rule list not exercised.",
+   ref="§4 C13"),
+ "C14": dict(engine="SEQ", technique="explicit-state BFS over admin+data request sequences on the real service, reference-model oracle on registry and all rows",
+   text="BFS with deduplication over sequences of table/family/row-range admin requests interleaved with data requests over two parents; after every request the response, GetTable/ListTables and a complete read of every table are compared with the model (all-or-nothing multi-modification requests, family drop purges cells, prefix drops with 0xff, delete/re-create starts empty).",
+   note="Trusted: reference model. NotFound/AlreadyExists required exactly, other failures as any non-OK.",
+   ref="§4 C14"),
+ "C17": dict(engine="SEQ", technique="explicit-state BFS over request programs run on all storage engines side by side, pairwise positional comparison of every response",
+   text="Differential model checking: every program up to the depth bound over an alphabet of admin/data requests (including filters that fail only on some rows, limits, drops, clears, re-created tables, a GC pass) is executed on btree, leveldb-mem (and leveldb-disk in the thorough tier) and every response plus a full read of every table is compared pairwise, positionally.",
+   note="No reference model involved: the oracle is agreement between engines. Error message texts are not compared.",
+   ref="§4 C17"),
  "C01": dict(engine="SEQ", technique="explicit-state BFS over request sequences on the real service, reference-model oracle",
    text="Bounded-exhaustive explicit-state model checking of the real bttest service: every sequence of single-mutation requests up to the depth bound (dedup on model state + raw stored rows), plus the full boundary catalogue of mutations and all ordered pairs of core mutations (MutateRow and MutateRows) from every shallow state; after every request the response and a complete unfiltered read are compared with an independent reference model of the Bigtable data model. Right level: the property quantifies over request programs and inputs; enumerating them on the implementation leaves no model-fidelity gap.",
    note="Trusted: reference model bt/model.go (naive maps), Go runtime, protobuf; family order inside a row is unspecified (compared as a set). Bounds (depth, alphabets, engines per tier) are reported in the evidence.",
